@@ -371,8 +371,8 @@ Proof.
   - destruct l as [|e l']; [|cbn in *; discriminate].
     injection H as <-. cbn. destruct (N.to_nat _); reflexivity.
   - dif H; [injection H as <-; reflexivity|]. exfalso.
-    match goal with E : (_ <=? 128) = false |- _ =>
-      apply N.leb_gt in E; apply N.leb_le in Hs; unfold nlen in *; lia end.
+    apply N.leb_le in Hs. rewrite N.leb_gt in *. unfold nlen in *.
+    match goal with E : 128 < _ |- _ => exact (N.lt_irrefl _ (N.lt_le_trans _ _ _ E Hs)) end.
 Qed.
 
 Lemma search_exact_k : forall (l : index) q k r, NoDup (map fst l) ->
@@ -593,9 +593,13 @@ Qed.
 
 Lemma init_inv : Inv init.
 Proof.
-  constructor; cbn; try constructor; try tauto.
-  - intros id v. split; [intros []|intros (nd & [] & _)].
-  - intros id v (nd & [] & _).
+  constructor; cbn [nodes free next idx init map].
+  - constructor.
+  - intros i [].
+  - constructor.
+  - intros i [].
+  - constructor.
+  - intros i v. split; [intros []|intros (nd & [] & _)].
 Qed.
 
 Lemma run_inv : forall ops, Inv (run ops).
